@@ -75,6 +75,14 @@ func (e *Engine) Setup(tier string) error {
 		rel, _ := filepath.Rel(root, c)
 		e.corpus = append(e.corpus, prog{name: rel, path: c})
 	}
+	// hand-written feature programs: language shapes the examples do not contain
+	for i, src := range featurePrograms {
+		e.corpus = append(e.corpus, prog{name: fmt.Sprintf("feature-%d", i), src: src})
+	}
+	// the generated map drivers of C13: one per key kind (interface comparison, type tables)
+	for i := 0; i < 4; i++ {
+		e.corpus = append(e.corpus, prog{name: fmt.Sprintf("feature-apple-%d", i), src: appleProgram})
+	}
 	// generated drivers are programs too (many types, closures, maps, interfaces)
 	for i := 0; i < 4; i++ {
 		d := wagen.Generate(tape.NewGen(0xC27, uint64(i)))
@@ -103,6 +111,13 @@ func (e *Engine) Extra() map[string]any {
 	}
 	sort.Ints(seen)
 	sort.Ints(multi)
+	var unv []string
+	for _, st := range e.sites {
+		if !e.multi[st.ID] {
+			unv = append(unv, st.Pos+" ("+st.Fn+")")
+		}
+	}
+	x["range_sites_never_with_2plus_keys_by_this_worker"] = unv
 	x["range_sites_total"] = len(e.sites)
 	x["range_sites_visited_by_this_worker"] = len(seen)
 	x["range_sites_with_2plus_keys_by_this_worker"] = len(multi)
@@ -303,3 +318,143 @@ func (e *Engine) Run(t *tape.Tape, keep bool) *sim.Result {
 	sm.Log = log.Lines
 	return res
 }
+
+// featurePrograms cover shapes that no example has: an interface whose only
+// member is an embedded imported composite interface, interfaces mixing
+// embedded and explicit methods, package-level variables with initialisation
+// dependencies (types.initOrder), labelled loops (types.labels), map literals.
+var featurePrograms = []string{
+	`import "io"
+import "strings"
+import "errors"
+
+type Stream :interface {
+	io.ReadWriteSeeker
+}
+
+type Both :interface {
+	io.Reader
+	io.Writer
+	Name() => string
+}
+
+type Buf :struct {
+	pos: i64
+	tag: string
+}
+
+func Buf.Read(p: []byte) => (n: int, err: error) { return len(p), nil }
+func Buf.Write(p: []byte) => (n: int, err: error) { return len(p), nil }
+func Buf.Seek(offset: i64, whence: int) => (i64, error) {
+	this.pos = offset
+	return this.pos, nil
+}
+func Buf.Name() => string { return this.tag }
+
+// package-level variables with initialisation dependencies (init order)
+global gA = gB + gC
+global gB = f1() + gD
+global gC = len(gS) + gD
+global gD = 3
+global gS = strings.Repeat("x", gD)
+global gErr = errors.New("e" + gS)
+global gTable = map[string]int{"one": gD, "two": gB, "three": gA}
+
+func f1() => int { return gD * 2 }
+
+func use(s: Stream, b: Both) => int {
+	n, _ := s.Write([]byte("abc"))
+	m, _ := b.Read(make([]byte, 2))
+	s.Seek(7, 0)
+	return n + m + len(b.Name())
+}
+
+func labeled(n: int) => int {
+	t := 0
+outer:
+	for i := 0; i < n; i++ {
+	inner:
+		for j := 0; j < n; j++ {
+			switch {
+			case j == 2:
+				continue outer
+			case i == 3:
+				break outer
+			case j > 5:
+				break inner
+			}
+			t += i * j
+		}
+	}
+	return t
+}
+
+func main {
+	b := &Buf{tag: "buf"}
+	println(use(b, b), gA, gB, gC, gErr.Error(), gTable["three"], labeled(6))
+}
+`,
+	`
+import "sort"
+import "strconv"
+import "bytes"
+
+type Named :interface {
+	Name() => string
+}
+
+type Sized :interface {
+	Named
+	Size() => int
+}
+
+type A :struct{ n: int }
+type B :struct{ s: string }
+
+func A.Name() => string { return "A" + strconv.Itoa(this.n) }
+func A.Size() => int { return this.n }
+func B.Name() => string { return "B" + this.s }
+func B.Size() => int { return len(this.s) }
+
+type byName :[]Sized
+
+func byName.Len() => int { return len(*this) }
+func byName.Less(i, j: int) => bool { return (*this)[i].Name() < (*this)[j].Name() }
+func byName.Swap(i, j: int) { (*this)[i], (*this)[j] = (*this)[j], (*this)[i] }
+
+global registry = map[string]Sized{"a": &A{1}, "b": &B{"bb"}, "c": &A{3}}
+global order = []string{"c", "a", "b"}
+global total = sum()
+
+func sum() => int {
+	t := 0
+	for _, k := range order {
+		t += registry[k].Size()
+	}
+	return t
+}
+
+func main {
+	xs: byName
+	for _, k := range order {
+		xs = append(xs, registry[k])
+	}
+	sort.Sort(&xs)
+	buf: bytes.Buffer
+	for _, x := range xs {
+		buf.WriteString(x.Name())
+	}
+	println(buf.String(), total)
+}
+`,
+}
+
+const appleProgram = `
+import "apple"
+import "math/rand"
+
+func main {
+	r := rand.New(rand.NewSource(7))
+	println(apple.Apple(), r.Intn(100))
+}
+`
